@@ -8,6 +8,7 @@
 (* like the kernel), the index (path -> blob as recorded), and HEAD's      *)
 (* tree.  The file system has three zones:                                 *)
 (*     Outside   <<"p","of">> <<"p","od",..>> <<"p","ol">>   (canaries)    *)
+(*               <<"p","repo-x","f">>  (sibling sharing the name prefix)   *)
 (*     Git       <<"p","repo",".git",..>>      (config, hooks/, hooks/h)   *)
 (*     WT        everything else below <<"p","repo">>                      *)
 (* One action = one entry point of dulwich applied to one tree:            *)
@@ -16,8 +17,13 @@
 (*     CO  porcelain.checkout(commit)     (update_working_tree, not forced)*)
 (*     COF porcelain.checkout(force=True)                                  *)
 (*     RH  porcelain.reset(mode="hard")   (update_working_tree from index) *)
+(*     RM  porcelain.reset(mode="mixed")  (HEAD and index move, the work   *)
+(*                                         tree is untouched: index and    *)
+(*                                         disk may now disagree)          *)
 (*     ST  porcelain.stash_pop of a stash whose tree is the given tree     *)
-(*     AP  porcelain.apply_patch of the patch that adds the tree's files   *)
+(*     AP  porcelain.apply_patch, one file patch per regular file of the   *)
+(*         tree: a patch that MODIFIES the path if it currently resolves   *)
+(*         to a regular file (through links), else a "new file" patch      *)
 (* Trees are sets of entries [n: raw name as a sequence of path elements,  *)
 (* k: regular file (content class, mode class incl. set-id / world-        *)
 (* writable bits) | symbolic link (target) | directory (children) |        *)
@@ -146,6 +152,7 @@ InitFS ==
     (<<"p", "od">> :> DirN) @@ (<<"p", "od", "x">> :> FileN("A", FALSE)) @@
     (<<"p", "od", "e">> :> DirN) @@ (<<"p", "od", "e", "x">> :> FileN("A", FALSE)) @@
     (<<"p", "ol">> :> LinkN(<<"of">>)) @@
+    (<<"p", "repo-x">> :> DirN) @@ (<<"p", "repo-x", "f">> :> FileN("A", FALSE)) @@   \* sibling whose name starts with the work tree's
     (W :> DirN) @@ (G :> DirN) @@
     (Append(G, "config") :> FileN("G", FALSE)) @@
     (Append(G, "hooks") :> DirN) @@ (G \o <<"hooks", "h">> :> FileN("A", FALSE))
@@ -425,7 +432,8 @@ UpdateWorkingTree(F, I, chs, pr) ==
 (* The tree an index stands for (Index.commit): nested by components       *)
 (***************************************************************************)
 TreeKindOfIdx(v) == IF v.t = "l" THEN LK(v.to) ELSE IF v.t = "g" THEN GK ELSE FK(v.c, IF v.x THEN "755" ELSE "644")
-IdxSane(I) == \A p, q \in DOMAIN I : p # q => ~IsPrefix(p, q)
+IdxSane(I) == /\ \A p, q \in DOMAIN I : p # q => ~IsPrefix(p, q)
+              /\ \A p \in DOMAIN I : \A i \in 1..Len(p) : p[i] # ""
 RECURSIVE Nest(_)
 Nest(I) ==
     { E(p, TreeKindOfIdx(I[p])) : p \in {q \in DOMAIN I : Len(q) = 1} }
@@ -472,10 +480,12 @@ PatchEntry(S, ent, pr) ==
     ELSE IF ~ValidPath(ent.p, pr) THEN Refused(S)
     ELSE LET v == VerifyLeading(S.F, ent.p) IN
     IF v = "refused" THEN Refused(S) ELSE IF v = "err" THEN Err(S)
-    ELSE LET S1 == IF Len(ent.p) > 1 THEN Do(S, Makedirs(S.F, Front(ent.p), TRUE)) ELSE S
+    ELSE LET r0 == SRes(S.F, ent.p)
+             isMod == Present(S.F, r0) /\ S.F[r0.loc].t = "f"     \* the patch modifies an existing file: no mode line
+             S1 == IF Len(ent.p) > 1 THEN Do(S, Makedirs(S.F, Front(ent.p), TRUE)) ELSE S
              S2 == IF S1.r = "run" /\ FixPatch /\ LStatT(S1.F, ent.p) = "l" THEN Do(S1, Unlink(S1.F, ent.p)) ELSE S1
              S3 == IF S2.r = "run" THEN Do(S2, WriteFile(S2.F, ent.p, ent.k.c)) ELSE S2
-             S4 == IF S3.r = "run" THEN Do(S3, Chmod(S3.F, ent.p, ExecOf(ent.k))) ELSE S3
+             S4 == IF S3.r = "run" /\ ~isMod THEN Do(S3, Chmod(S3.F, ent.p, ExecOf(ent.k))) ELSE S3
          IN IF S4.r # "run" THEN S4
             ELSE LET r == SRes(S4.F, ent.p) IN                      \* os.stat follows the link
                  [S4 EXCEPT !.I = IdxPut(S4.I, ent.p, FileIdx(ent.k.c, S4.F[r.loc].x))]
@@ -503,6 +513,14 @@ Results(op, T) ==
             THEN {Res(Err(St(fs, idx)), idx, T, TRUE)}     \* the index names a tree that does not exist: KeyError before anything is touched
             ELSE LET S == UpdateWorkingTree(fs, idx, TreeChanges(Nest(idx), T, TRUE), prot) IN
                  {Res(S, IF S.r = "ok" THEN S.I ELSE idx, T, TRUE)}
+      [] op = "RM" ->        \* index := the tree as it is (no validation), HEAD := T, nothing on disk
+            LET f == FlatSeq(T) IN
+            {Res(Done(St(fs, idx)),
+                 [q \in {f[i].p : i \in 1..Len(f)} |->
+                     LET k == (CHOOSE i \in 1..Len(f) : f[i].p = q) IN
+                     IF f[k].k.t = "l" THEN LinkIdx(f[k].k.to) ELSE IF f[k].k.t = "g" THEN GIdx
+                     ELSE FileIdx(f[k].k.c, ExecOf(f[k].k))],
+                 T, TRUE)}
       [] op = "ST" ->
             LET S == StashPop(fs, idx, T, prot) IN {Res(S, IF S.r = "ok" THEN S.I ELSE idx, head, hasHead)}
       [] op = "AP" ->
@@ -559,6 +577,8 @@ Lcfg == LK(<<".git", "config">>)         \* a file in the control directory
 Lhk  == LK(<<".git", "hooks">>)
 La   == LK(<<"a">>)                      \* sibling
 Ld   == LK(<<"d">>)
+Lsx  == LK(<<"..", "repo-x", "f">>)      \* file in the sibling whose name has the work tree's name as a prefix
+Lsd  == LK(<<"..", "repo-x">>)
 Lup  == LK(<<"..", "..", "od">>)         \* for links one level down
 DA   == DK({E(<<"x">>, FA)})
 DB   == DK({E(<<"x">>, FB)})
@@ -573,17 +593,17 @@ TreesOver(ents, maxE) == {T \in ({{}} \cup {{e} : e \in ents}
                                   \cup (IF maxE >= 2 THEN {{e1, e2} : e1 \in ents, e2 \in ents} ELSE {})) : WellFormed(T)}
 
 \* tiny: the histories of three operations
-EntsTiny == {E(<<"d">>, k) : k \in {FB, Lod, Lcfg, DA, DB}} \cup {E(<<"git~1">>, FA)}
+EntsTiny == {E(<<"d">>, k) : k \in {FB, Lod, Lsx, DA, DB}} \cup {E(<<"git~1">>, FA)}
 TreesTiny == TreesOver(EntsTiny, 1)
 TreesPatchNeg == {{E(<<"d">>, Lcfg)}, {E(<<"d">>, FB)}}
 \* core
-EntsCore == {E(<<"d">>, k) : k \in {FA, FB, Lod, Lof, Labs, Lgit, Lcfg, La, DA, DB, DC, DD, DLe, GK}}
+EntsCore == {E(<<"d">>, k) : k \in {FA, FB, Lod, Lof, Labs, Lgit, Lcfg, Lsx, Lsd, La, DA, DB, DC, DD, DLe, GK}}
             \cup {E(<<"a">>, k) : k \in {FA, Ld, DA}}
             \cup {E(<<".git">>, FA), E(<<"git~1">>, FA), E(<<"d", "x">>, FA), E(<<"..", "of">>, FA)}
 TreesCore == TreesOver(EntsCore, 1)
              \cup {T \in TreesOver(EntsCore, 2) : Cardinality(T) = 2 /\ \E e \in T : e.n \in {<<"a">>, <<"git~1">>}}
 \* mid: two operations, both settings
-EntsMid == {E(<<"d">>, k) : k \in {FB, Lod, Lgit, Lcfg, DA, DB, DD, DLe, GK}} \cup {E(<<"a">>, k) : k \in {FA, Ld}}
+EntsMid == {E(<<"d">>, k) : k \in {FB, Lod, Lgit, Lcfg, Lsx, DA, DB, DD, DLe, GK}} \cup {E(<<"a">>, k) : k \in {FA, Ld}}
            \cup {E(<<"git~1">>, FA), E(<<"..", "of">>, FA)}
 TreesMid == {T \in TreesOver(EntsMid, 2) : Cardinality(T) = 2 => \E e \in T : e.n \in {<<"git~1">>}}
             \cup {{E(<<"a">>, FA), E(<<"d">>, DB)}, {E(<<"a">>, Ld), E(<<"d">>, DB)}}
@@ -591,17 +611,17 @@ TreesMid == {T \in TreesOver(EntsMid, 2) : Cardinality(T) = 2 => \E e \in T : e.
 EntsGl == {E(<<"d">>, k) : k \in {GK, FB, Lod, DA, DK({E(<<"x">>, GK)})}} \cup {E(<<"git~1">>, FA)}
 TreesGl == TreesOver(EntsGl, 1)
 \* small: three operations
-EntsSmall == {E(<<"d">>, k) : k \in {FB, Lod, Lgit, Lcfg, DA, DB, DC, DD, DLe, GK}} \cup {E(<<"a">>, k) : k \in {DA}}
+EntsSmall == {E(<<"d">>, k) : k \in {FB, Lod, Lgit, Lcfg, Lsx, DA, DB, DC, DD, DLe, GK}} \cup {E(<<"a">>, k) : k \in {DA}}
              \cup {E(<<"git~1">>, FA)}
 TreesSmall == {T \in TreesOver(EntsSmall, 2) : Cardinality(T) = 2 => \E e \in T : e.n = <<"a">>}
 \* full
-EntsFull == {E(<<"d">>, k) : k \in {FA, FB, FX, FN, Lod, Lof, Labs, Lgit, Lcfg, Lhk, La, DA, DB, DC, DH, DL, DD, DLe, GK, DG}}
+EntsFull == {E(<<"d">>, k) : k \in {FA, FB, FX, FN, Lod, Lof, Labs, Lgit, Lcfg, Lhk, Lsx, Lsd, La, DA, DB, DC, DH, DL, DD, DLe, GK, DG}}
             \cup {E(<<"a">>, k) : k \in {FA, FB, Ld, Lod, DA}}
             \cup {E(<<".git">>, FA), E(<<"git~1">>, FA), E(<<"d", "x">>, FA), E(<<"d", "x">>, FB)}
 TreesFull == TreesOver(EntsFull, 1)
              \cup {T \in TreesOver(EntsFull, 2) : Cardinality(T) = 2 /\ \E e \in T : e \in {E(<<"a">>, Ld), E(<<"a">>, DA), E(<<"git~1">>, FA)}}
 \* every name of the adversarial alphabet, one entry per tree, regular file and symbolic link
-NamesAdv == {<<c>> : c \in Comps \ {"p", "repo", "config", "hooks", "h", "tmp", "e", "of", "od", "ol"}}
+NamesAdv == {<<c>> : c \in Comps \ {"p", "repo", "config", "hooks", "h", "tmp", "e", "of", "od", "ol", "repo-x", "f"}}
             \cup {<<"..", "of">>, <<"..", "..", "tmp">>, <<"d", "..", "..", "of">>, <<".git", "x">>,
                   <<".git", "hooks", "x">>, <<"a", ".git", "x">>, <<"a", ".GIT", "x">>, <<"", "p", "of">>, <<"", "p", "tmp">>,
                   <<"", "p", "repo", ".git", "x">>, <<"d", "", "x">>, <<"d", ".", "x">>, <<"d", "x">>, <<"a", "">>,
@@ -611,6 +631,6 @@ TreesNames == {{E(nm, k)} : nm \in NamesAdv, k \in {FB, Lof}}
 
 ProtsDefault == {[ntfs |-> TRUE, hfs |-> FALSE]}
 ProtsQuick == {[ntfs |-> TRUE, hfs |-> FALSE], [ntfs |-> FALSE, hfs |-> FALSE]}
-OpsAll == {"CL", "RI", "CO", "COF", "RH", "ST", "AP"}
-OpsNoClone == {"RI", "CO", "COF", "RH", "ST", "AP"}
+OpsAll == {"CL", "RI", "CO", "COF", "RH", "RM", "ST", "AP"}
+OpsNoClone == {"RI", "CO", "COF", "RH", "RM", "ST", "AP"}
 =============================================================================
